@@ -122,13 +122,19 @@ func runOneFrontend(sc feScenario) []tr.Ev {
 	for v := 1; v <= sc.Variants; v++ {
 		vl := lay
 		vl.Seed = lay.Seed + int64(v)*7919
-		switch v % 4 {
+		switch v % 6 {
 		case 1:
 			vl.Canonical = true
 		case 2:
 			vl.Blank, vl.Comment = 0.5, 0
 		case 3:
 			vl.Blank, vl.Comment = 0, 0.5
+		case 4: // space-only units, 4-space chunks turned into tabs line by line
+			vl.Units = []string{" ", "  ", "   ", "    ", "     ", "        "}
+			vl.TabMix = 0.5
+		case 5: // scaled indentation
+			vl.Units = []string{" ", "  ", "    "}
+			vl.Scale = 2 + v%3
 		}
 		vr := render.Render(sc.Decls, vl)
 		vc := compileFiles(vr.Files, "main.sysl")
